@@ -656,7 +656,16 @@ func (c *Ctx) runFloatFormat(rule string, pkgShort ...string) {
 						}
 						return true
 					}
-					if fn == nil || fn.Pkg() == nil || fn.Pkg().Path() != "strconv" || fn.Name() != "FormatFloat" || len(call.Args) != 4 {
+					if fn == nil || fn.Pkg() == nil || fn.Pkg().Path() != "strconv" {
+						return true
+					}
+					// FormatFloat(f, fmt, prec, bits) or AppendFloat(dst, f, fmt, prec, bits)
+					args := call.Args
+					switch {
+					case fn.Name() == "FormatFloat" && len(args) == 4:
+					case fn.Name() == "AppendFloat" && len(args) == 5:
+						args = args[1:]
+					default:
 						return true
 					}
 					n++
@@ -664,7 +673,7 @@ func (c *Ctx) runFloatFormat(rule string, pkgShort ...string) {
 					c.analysed(name)
 					key := fmt.Sprintf("%s FormatFloat#%d", name, n)
 					// static type of the value before conversion to float64
-					arg := ast.Unparen(call.Args[0])
+					arg := ast.Unparen(args[0])
 					bits := int64(64)
 					if conv, ok := arg.(*ast.CallExpr); ok && len(conv.Args) == 1 {
 						if tv, ok := info.Types[conv.Fun]; ok && tv.IsType() {
@@ -673,9 +682,9 @@ func (c *Ctx) runFloatFormat(rule string, pkgShort ...string) {
 							}
 						}
 					}
-					prec, pok := constant.Int64Val(constant.ToInt(info.Types[call.Args[2]].Value))
-					bs, bok := constant.Int64Val(constant.ToInt(info.Types[call.Args[3]].Value))
-					if info.Types[call.Args[2]].Value == nil || info.Types[call.Args[3]].Value == nil {
+					prec, pok := constant.Int64Val(constant.ToInt(info.Types[args[2]].Value))
+					bs, bok := constant.Int64Val(constant.ToInt(info.Types[args[3]].Value))
+					if info.Types[args[2]].Value == nil || info.Types[args[3]].Value == nil {
 						pok, bok = false, false
 					}
 					minDigits := int64(17)
